@@ -297,6 +297,11 @@ def case_bay(rng, tier):
     except Exception as e:
         return c.reject('%s building bay: %s' % (type(e).__name__, str(e)[:100]))
     fskin = gen_forces(rng, d['a'], d['b'], 4)
+    # skin forces exactly on the line between two skin strips (where the stiffeners sit) and on the bay edges
+    lines = list(d.get('cuts', [])) + [0.0, d['b']]
+    for f in fskin:
+        if rng.random() < 0.3:
+            f[1] = float(lines[int(rng.integers(0, len(lines)))])
     bay.forces_skin = [list(f) for f in fskin]
     floc = {}
     for si, s in enumerate(bay.stiffeners):
